@@ -164,3 +164,48 @@ def z3(ctx):
 
 
 RULES = [z1, z2, z3]
+
+
+@rule("Z5", cfgs=["explanations", "checks_explanations"], doc="the explanation printer numbers each proof node once: its work stack never holds two copies of a node (one premise is scheduled per round, or the insert is guarded by a membership test)")
+def z5(ctx):
+    crate = ctx.lib()
+    n = 0
+    for b in crate.fns():
+        if not (b.file or "").startswith("src/explain/"):
+            continue
+        for sub in b.all_bodies():
+            ins = [c for c in sub.calls if c.callee and c.callee.name == "insert" and c.args and re.search(r"Hash(Map|Set)<\*(const|mut) ", sub.local_ty(mir.op_place(c.args[0])["l"]) if mir.op_place(c.args[0]) is not None else "")
+                   and not sub.blocks[c.bb]["cleanup"]]
+            for c in ins:
+                # value carries the insertion index len(map)
+                if len(c.args) < 3 or not role_mentions_call(sub.role_of_operand(c.args[2]), "len"):
+                    continue
+                n += 1
+                key = strip_role(sub.role_of_operand(c.args[1]))
+                guarded = False
+                for e, cond in C.conditions_at(sub, c.bb):
+                    r = strip_role(cond[1]) if len(cond) > 1 else None
+                    if cond[0] == "false" and isinstance(r, tuple) and r[0] == "call" and r[1] == "contains_key" and len(r[3]) == 2 and strip_role(r[3][1]) == key:
+                        guarded = True
+                # discipline (ii): the work stack gets at most one new element between two heads of the driving loop
+                pushes = [x for x in sub.calls if x.callee and x.callee.name == "push" and x.args and "Vec<&" in sub.local_ty(mir.op_place(x.args[0])["l"]) and not sub.blocks[x.bb]["cleanup"]] if True else []
+                heads = set()
+                # `while let Some(x) = stack.last()` is not an Iterator::next loop: find its head as the switch on discr(last(stack))
+                for sb in sub.switch_blocks():
+                    r = sub.role_of_operand(sub.blocks[sb]["term"]["discr"])
+                    if r[0] != "discr":
+                        continue
+                    x_ = strip_role(r[1])
+                    while isinstance(x_, tuple) and x_[0] == "call" and x_[1] in ("cloned", "copied", "as_ref", "as_deref") and x_[3]:
+                        x_ = strip_role(x_[3][0])
+                    if isinstance(x_, tuple) and x_[0] == "call" and x_[1] in ("last", "pop", "last_mut"):
+                        heads.add(sb)
+                one_at_a_time = bool(pushes) and bool(heads) and all(not any(y.bb in sub.reach(sub.after(x.bb), avoid=heads) for y in pushes) for x in pushes)
+                ctx.check(guarded or one_at_a_time, "node-numbered-once:" + C.fkey(crate.root_of(sub)),
+                          "%s: a proof node gets its line number once (%s)" % (C.short(crate.root_of(sub).id), "insert guarded by a membership test" if guarded else "one premise scheduled per round"),
+                          "%s numbers proof nodes with map.len() in a pointer-keyed map, but a node can be on the work stack twice (several premises are pushed in one round and nothing checks `already printed` when a node resurfaces): it is printed twice, two lines get the same number, and their relative order after sorting is the map's iteration order — which depends on heap addresses. The transcript of an explanation differs between runs" % C.short(crate.root_of(sub).id),
+                          where_of(sub, c.bb))
+    ctx.floor("insertion-indexed pointer-keyed maps in the explanation printer", n, 1)
+
+
+RULES.append(z5)
